@@ -108,7 +108,9 @@ func processIMUL(env *Pass1, operands []ast.Exp) {
 	ngOperands = ngOperands.WithBitMode(env.BitMode)
 
 	// FindMinOutputSize を使用して命令サイズを計算します
-	calculatedSize, err := env.AsmDB.FindMinOutputSize(instName, ngOperands)
+	// handleIMUL は matchAnyImm = false を先に試すので、同じ順序で選ばれる形式のサイズを使う
+	// (IMUL r,imm を 6B ib として数えると、実際に出力される 69 iw/id と食い違う)
+	calculatedSize, err := env.AsmDB.FindExactImmOutputSize(instName, ngOperands)
 	if err != nil {
 		log.Printf("Error finding min output size for %s %s: %v", instName, operandString, err)
 		return
